@@ -328,6 +328,91 @@ def c20_shapes():
     return out
 
 
+def directed_ctrl_shapes():
+    """loops whose body ends in If(c).Then(Continue/Break).Else(Break/Continue), followed by plain statements and further
+    loops: sortBlocks lays a loop's exit out before its body, so such an If has BOTH successors far (flattenBlocks' last case)"""
+    li = lt(ld("i"), I(10))
+    lj = lt(ld("j"), I(20))
+    odd = ("op", "%", (), "u", (ld("i"), I(2)))
+    out = []
+    for a, b in (("continue", "break"), ("break", "continue"), ("continue", "continue"), ("break", "break"), ("continue", pop(I(7))), (pop(I(7)), "break")):
+        tail_if = ("if", odd, a, b)
+        loop1 = ("while", li, ("seq", st("i", inc("i")), tail_if))
+        loop1f = ("for", st("i", I(0)), li, st("i", inc("i")), ("seq", pop(I(1)), tail_if))
+        loop2 = ("while", lj, st("j", ("nary", "+", "u", (ld("j"), I(3)))))
+        for l1 in (loop1, loop1f):
+            out.append(("seq", st("i", I(0)), l1, st("j", ld("i")), loop2, ("return", ld("j"))))
+            out.append(("seq", st("i", I(0)), l1, pop(I(5)), APPROVE))
+            out.append(("seq", st("i", I(0)), st("j", I(0)), l1, l1, loop2, APPROVE))
+            out.append(("seq", st("i", I(0)), st("j", I(0)), ("while", lj, ("seq", st("j", inc("j")), l1, pop(I(2)))), pop(I(3)), loop2, APPROVE))
+            out.append(("seq", st("i", I(0)), ("if", C1, l1, pop(I(1))), st("j", I(0)), loop2, APPROVE))
+    return out
+
+
+def gen_ctrl_program(rng):
+    """seeded random nested control flow: 2-4 top-level items (loops, plain statements, conditionals), loops nested up to
+    3 deep, Break/Continue inside one or both arms of If/Cond within loops, statements after the control transfers"""
+    vars_ = ["i", "j", "k"]
+
+    def cond():
+        return rng.choice([C1, lt(ld(rng.choice(vars_)), I(rng.choice([0, 1, 3, 10]))), ("op", "%", (), "u", (ld(rng.choice(vars_)), I(2))),
+                           ("op", ">", (), "u", (FEE, I(5))), I(1), I(0)])
+
+    def plain():
+        v = rng.choice(vars_)
+        return rng.choice([pop(I(rng.randrange(9))), st(v, inc(v)), st(v, ld(rng.choice(vars_))), pop(ld(v)), ("assert", (cond(),))])
+
+    def arm(d, in_loop):
+        ks = ["plain", "plain", "seq"]
+        if in_loop:
+            ks += ["break", "continue", "break", "continue", "seq_ctl"]
+        if d > 0:
+            ks += ["if", "loop"]
+        k = rng.choice(ks)
+        if k == "plain":
+            return plain()
+        if k == "break" or k == "continue":
+            return k
+        if k == "seq":
+            return ("seq",) + tuple(stmt(d - 1, in_loop) for _ in range(rng.choice([0, 1, 2])))
+        if k == "seq_ctl":
+            return ("seq", plain(), rng.choice(["break", "continue"]))
+        if k == "if":
+            return if_(d - 1, in_loop)
+        return loop(d - 1)
+
+    def if_(d, in_loop):
+        if rng.random() < 0.65:
+            return ("if", cond(), arm(d, in_loop), arm(d, in_loop))
+        if rng.random() < 0.5:
+            return ("if", cond(), arm(d, in_loop))
+        return ("cond", (cond(), arm(d, in_loop)), (I(1), arm(d, in_loop)))
+
+    def loop(d):
+        n = rng.choice([1, 2, 2, 3])
+        body = [stmt(d, True) for _ in range(n - 1)] + [if_(d, True) if rng.random() < 0.7 else stmt(d, True)]
+        b = ("seq",) + tuple(body) if len(body) != 1 or rng.random() < 0.5 else body[0]
+        if rng.random() < 0.7:
+            return ("while", cond(), b)
+        v = rng.choice(vars_)
+        return ("for", st(v, I(0)), lt(ld(v), I(rng.choice([0, 2, 5]))), st(v, inc(v)), b)
+
+    def stmt(d, in_loop):
+        k = rng.choice(["plain", "plain", "if", "loop"] if d > 0 else ["plain"])
+        if k == "plain":
+            return plain()
+        if k == "if":
+            return if_(d - 1, in_loop)
+        return loop(d - 1)
+    items = []
+    for _ in range(rng.choice([2, 3, 3, 4])):
+        items.append(loop(rng.choice([1, 2, 3])) if rng.random() < 0.6 else stmt(2, False))
+        if rng.random() < 0.5:
+            items.append(plain())
+    fin = rng.choice([APPROVE, ("return", ld(rng.choice(vars_))), ("exit", I(0))])
+    return ("seq",) + tuple(st(v, I(0)) for v in vars_) + tuple(items) + (fin,)
+
+
 def mutate_ill_typed(rng, r):
     """turn a (presumably) well-typed recipe into an ill-typed / malformed one at a random position"""
     kind = rng.choice(["pop_none", "add_bytes", "seq_value_first", "if_mismatch", "while_bytes", "break_outside", "return_bytes",
@@ -497,6 +582,7 @@ class Run:
         self.pending_recursion = [] # in-process RecursionErrors to diagnose in a worker
         self.wt_cache = {}
         self.hist = {}
+        self.recount = True
 
     def note(self, k, n=1):
         self.outcomes[k] = self.outcomes.get(k, 0) + n
@@ -516,13 +602,20 @@ class Run:
             self.wt_cache[w] = (r[1] == S("true")) if isinstance(r, list) and r and r[0] == S("wt") else None
         return self.wt_cache[w]
 
-    def consider(self, c, origin, well_formed=True):
+    def note_if(self, k):
+        if self.recount:
+            self.note(k)
+
+    def consider(self, c, origin, well_formed=True, recount=True):
         """classify one compiled case"""
         ck = self.ck
-        ck.count(c.key(), nontrivial=(c.realx is not None and c.realx["outcome"] == "ok"))
+        c.origin, c.well_formed = origin, well_formed
+        self.recount = recount
+        if recount:
+            ck.count(c.key(), nontrivial=(c.realx is not None and c.realx["outcome"] == "ok"))
         if c.build["outcome"] != "ok":
             o = c.build["outcome"]
-            self.note("construction:" + (c.build.get("exc") or o))
+            self.note_if("construction:" + (c.build.get("exc") or o))
             if o == "crash":
                 self.crashes.append((c, "construction", origin))
             elif o == "timeout":
@@ -531,12 +624,12 @@ class Run:
                 self.wt_fail.append(c)
             return
         rc, mc = real_class(c), model_class(c)
-        self.note("real:" + rc)
+        self.note_if("real:" + rc)
         if mc == "unsupported":
-            self.note("model-unsupported")
+            self.note_if("model-unsupported")
         wt = self.wt(c) if well_formed else None
         if wt:
-            self.note("coq-well-typed")
+            self.note_if("coq-well-typed")
         if c.realx["outcome"] == "timeout":
             self.crashes.append((c, "timeout", origin))
             return
@@ -558,12 +651,12 @@ class Run:
             sh = c.shape
             if isinstance(sh, list) and sh and sh[0] == S("shape"):
                 d = dict((repr(x[0]), x[1]) for x in sh[1:])
-                self.depth_checked += 1
+                self.depth_checked += 1 if recount else 0
                 if c.ai_peak != d["depth"] + 1:
                     self.depth_mismatch.append((c, c.ai_peak, d["depth"]))
                 if d["straight"] == S("true") and d["has-return"] == S("true"):
                     # the fragment of accepts_well_typed_partial / walk_depth_is_program_length
-                    self.straight_checked += 1
+                    self.straight_checked += 1 if recount else 0
                     if d["depth"] != d["blocks"] - 1 or mc != "ok":
                         self.depth_mismatch.append((c, "theorem instance", d))
 
@@ -579,6 +672,297 @@ class Run:
             return None
 
 
+# ---------------------------------------------------------------------------------------------
+# streams (each case is a function of (VERIF_SEED, stream name, index): independent of the sharding)
+# ---------------------------------------------------------------------------------------------
+OPTMATRIX = [(None, None), (True, None), (False, None), (None, False), (True, True), (False, False), (None, True), (True, False)]
+
+
+def rng_of(stream, i):
+    import random
+    h = hashlib.sha1(("%d/%s/%d" % (seed(), stream, i)).encode()).digest()
+    return random.Random(int.from_bytes(h[:8], "big"))
+
+
+def all_shapes():
+    shapes = small_recipes() + c20_shapes() + directed_ctrl_shapes()
+    seen = set()
+    return [s for s in shapes if not (repr(s) in seen or seen.add(repr(s)))]
+
+
+def stream_small(run, thorough, k, n):
+    pt, model = run.pt, run.model
+    versions = list(range(2, 11))
+    if k == 0:      # corpus of earlier minimised failures (repaired in /repo): must compile, model must agree
+        for r in (W_LOOP_FIRST, W_LOOP_CONTINUE, W_IF_EMPTY_THEN_LOOP, W_OPT):
+            for v in versions:
+                for ssv in (None, True):
+                    run.consider(run_case(pt, model, C20Case(r, v, True, ssv, None), measure=True), "corpus")
+    for si, r in enumerate(all_shapes()):
+        if si % n != k:
+            continue
+        if thorough:
+            configs = [(v, app, ssv, fpv) for v in versions for app in (True, False) for (ssv, fpv) in OPTMATRIX]
+        else:
+            # every shape at four versions (application mode, default options), one signature-mode version and
+            # two rotating version/option settings
+            configs = [(v, True, None, None) for v in (2, 6, 9, 10)] + [((3, 8)[si % 2], False, None, None)]
+            configs += [((4, 5, 7, 8, 9, 10)[(si + j) % 6], True) + OPTMATRIX[1 + (si + 3 * j) % 7] for j in range(2)]
+        for v, app, ssv, fpv in configs:
+            run.consider(run_case(pt, model, C20Case(r, v, app, ssv, fpv), measure=(ssv is None and fpv is None)), "small")
+
+
+def stream_ctrl(run, thorough, k, n):
+    """nested control flow with Break/Continue in If arms, sequences of loops"""
+    pt, model = run.pt, run.model
+    for i in range(4000 if thorough else 450):
+        if i % n != k:
+            continue
+        rng = rng_of("ctrl", i)
+        r = gen_ctrl_program(rng)
+        version, app, ssv, fpv = random_case_params(rng)
+        run.consider(run_case(pt, model, C20Case(r, version, app, ssv, fpv), measure=(i % 3 == 0)), "ctrl")
+
+
+def stream_random(run, thorough, k, n):
+    pt, model, ck = run.pt, run.model, run.ck
+    for i in range(6000 if thorough else 700):
+        if i % n != k:
+            continue
+        rng = rng_of("random", i)
+        version, app, ssv, fpv = random_case_params(rng)
+        g = Gen(rng, version, app, size=rng.choice([5, 10, 20, 40, 60, 90]), allow_new_ops=0.03)
+        r = g.program(depth=rng.choice([1, 2, 3, 4, 5]))
+        init = tuple(st(kk, (I(0) if t == "u" else B(b""))) for kk, t in g.vars.items())
+        if init and rng.random() < 0.9:
+            r = ("seq",) + init + (r,)
+        for kk, vv in g.hist.items():
+            run.hist[kk] = run.hist.get(kk, 0) + vv
+        c = run_case(pt, model, C20Case(r, version, app, ssv, fpv), measure=(i % 4 == 0))
+        run.consider(c, "random")
+        if c.realx is not None and c.realx["outcome"] == "ok":
+            ck.sample({"recipe": repr(r)[:300], "version": version, "mode": "app" if app else "sig", "teal_lines": len(c.realx["value"].split("\n"))}, limit=3)
+        # the same program, made ill-typed / malformed at one position: must be refused with a PyTeal error
+        if i % 3 == 0:
+            kind, bad = mutate_ill_typed(rng, r)
+            cb = run_case(pt, model, C20Case(bad, version, app, ssv, fpv))
+            run.consider(cb, "ill-typed:" + kind, well_formed=False)
+            refused = cb.build["outcome"] == "pyteal" or (cb.realx is not None and cb.realx["outcome"] == "pyteal")
+            run.note("ill-typed refused with a PyTeal error" if refused else "ill-typed:" + kind + ":" + (cb.build["outcome"] if cb.realx is None else real_class(cb)))
+
+
+def stream_subs(run, thorough, k, n):
+    """programs with subroutines (recursion, by-reference parameters, odd names)"""
+    pt, model = run.pt, run.model
+    for i in range(1500 if thorough else 160):
+        if i % n != k:
+            continue
+        rng = rng_of("subs", i)
+        version = rng.choice([4, 5, 6, 7, 8, 8, 9, 10])
+        app = rng.random() < 0.8
+        ssv = rng.choice([None, None, True, False])
+        fpv = rng.choice([None, None, False, True]) if version >= 8 else rng.choice([None, False])
+        try:
+            prepare, main_r, desc = gen_sub_program(rng, version, app)
+        except Exception:  # generator limitation, not the implementation
+            run.note("subgen-skip")
+            continue
+        b0 = Builder(pt)
+        rb = call_real(prepare, b0)
+        if rb[0] != "ok":
+            run.note("sub-definition:" + rb[1])
+            if rb[1] not in PYTEAL_ERROR_NAMES:
+                c = C20Case(main_r, version, app, ssv, fpv)
+                c.build = {"outcome": "crash", "exc": rb[1], "msg": rb[2]}
+                run.crashes.append((c, "sub-definition", "subs"))
+            continue
+        subs = [(kk, s_["name"], s_["ret"], s_["kinds"], s_["body"]) for kk, s_ in b0.subs.items()]
+        run.consider(run_case(pt, model, C20Case(main_r, version, app, ssv, fpv, subs)), "subs")
+
+
+STREAMS = [("small", stream_small), ("ctrl", stream_ctrl), ("random", stream_random), ("subs", stream_subs)]
+
+
+def case_ref(c, origin, well_formed=True, where=None):
+    return {"recipe": repr(c.recipe), "version": c.version, "app": c.app, "ss": c.ss, "fp": c.fp,
+            "subs": [[kk, nm, r_, kd, repr(bd)] for (kk, nm, r_, kd, bd) in c.subs], "origin": origin, "well_formed": well_formed, "where": where,
+            "build": ({kk: vv for kk, vv in c.build.items() if kk != "value"} if (c.build and c.build.get("outcome") != "ok") else None)}
+
+
+def shard_main(k, n, tier):
+    """one slice of every stream in its own process; prints one JSON line"""
+    import pyteal as pt
+    ck = Check("C20", tier)
+    model = Model("c20")
+    run = Run(ck, pt, model)
+    run.remember = []            # (case, origin, well_formed) of everything consider() flagged
+    timings = {}
+    for name, fn in STREAMS:
+        t0 = time.time()
+        fn(run, tier == "thorough", k, n)
+        timings[name] = round(time.time() - t0, 1)
+    flagged = {}
+    for lst, cat in ((run.crashes, "crash"), (run.pending_recursion, "recursion")):
+        for t in lst:
+            c = t[0]
+            flagged.setdefault(json.dumps(case_ref(c, t[-1], where=(t[1] if len(t) == 3 else None)), sort_keys=True), cat)
+    for lst, cat in ((run.mismatch, "mismatch"), (run.accept_fail, "accept"), (run.wt_fail, "wt")):
+        for c in lst:
+            flagged.setdefault(json.dumps(case_ref(c, getattr(c, "origin", "?"), getattr(c, "well_formed", True)), sort_keys=True), cat)
+    for t in run.depth_mismatch:
+        c = t[0]
+        flagged.setdefault(json.dumps(case_ref(c, getattr(c, "origin", "?")), sort_keys=True), "depth")
+    out = {"shard": k, "outcomes": run.outcomes, "hist": run.hist, "evaluations": ck.evaluations, "distinct": sorted(ck.distinct),
+           "samples": ck.samples, "depth_checked": run.depth_checked, "straight_checked": run.straight_checked,
+           "text_mismatch": run.text_mismatch, "flagged": [[json.loads(kk), cat] for kk, cat in flagged.items()][:400],
+           "flagged_total": len(flagged), "timings": timings, "cpu_s": round(time.process_time(), 1)}
+    model.close()
+    sys.stdout.write("SHARD " + json.dumps(out, default=repr) + "\n")
+    sys.stdout.flush()
+    return 0
+
+
+def start_shards(n, tier):
+    env = dict(os.environ)
+    procs = []
+    for k in range(n):
+        procs.append(subprocess.Popen([PY, os.path.abspath(__file__), "--shard", str(k), str(n), "--tier", tier],
+                                      stdout=subprocess.PIPE, stderr=subprocess.PIPE, text=True, env=env))
+    return procs
+
+
+def merge_shards(run, procs, n, thorough):
+    ck, pt, model = run.ck, run.pt, run.model
+    flagged, totals, shard_t = [], 0, []
+    for k, p in enumerate(procs):
+        try:
+            out, err = p.communicate(timeout=(3000 if thorough else 900))
+        except subprocess.TimeoutExpired:
+            p.kill()
+            out, err = p.communicate()
+        line = next((l for l in out.splitlines() if l.startswith("SHARD ")), None)
+        if line is None:
+            # the shard did not answer (an exception of the implementation escaped it, or it was killed): its slice is run here
+            ck.notes.append("shard %d gave no answer (rc=%s): %s; its slice was run in the main process" % (k, p.returncode, (err or out or "")[-300:].replace("\n", " | ")))
+            for name, fn in STREAMS:
+                fn(run, thorough, k, n)
+            continue
+        d = json.loads(line[6:])
+        for kk, vv in d["outcomes"].items():
+            run.note(kk, vv)
+        for kk, vv in d["hist"].items():
+            run.hist[kk] = run.hist.get(kk, 0) + vv
+        ck.evaluations += d["evaluations"]
+        ck.distinct.update(d["distinct"])
+        for smp in d["samples"]:
+            ck.sample(smp, limit=5)
+        run.depth_checked += d["depth_checked"]
+        run.straight_checked += d["straight_checked"]
+        run.text_mismatch += d["text_mismatch"]
+        flagged += d["flagged"]
+        totals += d["flagged_total"]
+        shard_t.append((d["timings"], d["cpu_s"]))
+    ck.coverage["shards"] = {"count": n, "per_shard_stream_wall_s": [t for t, _ in shard_t], "cpu_s": [c_ for _, c_ in shard_t], "cases_flagged_by_shards": totals}
+    # every flagged case is re-run and judged in this process (cap per category; the rest is counted)
+    per_cat = {}
+    for ref, cat in flagged:
+        per_cat.setdefault(cat, []).append(ref)
+    rerun = 0
+    for cat, refs in per_cat.items():
+        refs.sort(key=lambda r_: len(r_["recipe"]))
+        for ref in refs[:(40 if not thorough else 80)]:
+            subs = [(kk, nm, r_, kd, eval(bd)) for (kk, nm, r_, kd, bd) in ref["subs"]]
+            c = C20Case(eval(ref["recipe"]), ref["version"], ref["app"], ref["ss"], ref["fp"], subs)
+            if ref.get("where") == "sub-definition":
+                c.build = ref["build"]
+                run.crashes.append((c, "sub-definition", ref["origin"]))
+                continue
+            run.consider(run_case(pt, model, c, measure=True), ref["origin"], well_formed=ref["well_formed"], recount=False)
+            rerun += 1
+    ck.coverage["shards"]["flagged_cases_rejudged_here"] = rerun
+    ck.coverage["shards"]["flagged_by_category"] = {cat: len(v) for cat, v in per_cat.items()}
+
+
+def pv_is_current(name):
+    """is ocaml/pv_<name> built from the present Coq sources? (same digest as common.build_pvmodel)"""
+    h = hashlib.sha256()
+    for root, _, files in sorted(os.walk(COQ)):
+        for f in sorted(files):
+            if f.endswith(".v"):
+                h.update(open(os.path.join(root, f), "rb").read())
+    h.update(open(os.path.join(OCAML, "driver.ml"), "rb").read())
+    h.update(open(os.path.join(OCAML, "build.sh"), "rb").read())
+    stamp = os.path.join(OCAML, "_build", name + ".stamp")
+    return os.path.exists(os.path.join(OCAML, "pv_" + name)) and os.path.exists(stamp) and open(stamp).read() == h.hexdigest()
+
+
+# ---------------------------------------------------------------------------------------------
+# compile-history sessions: the outcome class of a compilation must not depend on what was compiled before
+# ---------------------------------------------------------------------------------------------
+SESSION_PRELUDES = [("sub_illtyped_body", 8), ("sub_illtyped_body", 6), ("sub_illtyped_body_byref", 8), ("abi_sub_illtyped_body", 8),
+                    ("abi_sub_illtyped_body", 6), ("sub_body_raises", 8), ("break_outside", 6), ("op_too_new", 2), ("too_many_slots", 6),
+                    ("return_bytes_main", 6), ("router_empty", 8), ("router_illtyped_method", 8), ("router_illtyped_method", 6)]
+SESSION_SLICE = [(nm, v) for nm in ("abi_uint64_main", "abi_bool_byte_main", "abi_two_values_loop", "abi_string_main", "scratchvar_main") for v in range(2, 11)] + \
+                [(nm, v) for nm in ("loop_first", "long_pop_50", "sub_ok", "abi_sub_ok", "router_ok") for v in (3, 6, 8, 10)]
+
+
+def session_jobs():
+    mk = lambda l: [{"prog": nm, "version": v} for nm, v in l]
+    jobs = [[{"session": mk(SESSION_SLICE), "tag": "fresh", "timeout": 60}]]
+    for p in SESSION_PRELUDES:
+        jobs.append([{"session": mk([p] + SESSION_SLICE), "tag": "after:%s@v%d" % p, "timeout": 60}])
+    jobs.append([{"session": mk(SESSION_PRELUDES + SESSION_SLICE), "tag": "after:all-preludes", "timeout": 60}])
+    return jobs
+
+
+def step_class(s_):
+    return "teal" if s_["outcome"] == "teal" else (s_.get("exc") or s_["outcome"])
+
+
+def summarize_sessions(ck, wres):
+    sess = [r for r in wres if r.get("outcome") == "session"]
+    fresh = next((r for r in sess if r["job"].get("tag") == "fresh"), None)
+    stats = {"sessions": len(sess), "steps": sum(len(r["steps"]) for r in sess), "class_differences": 0, "text_differences": 0, "prelude_outcomes": {}}
+    ck.coverage["history_sessions"] = stats
+    if fresh is None:
+        if sess:
+            ck.notes.append("history sessions: the fresh reference session did not run")
+        return
+    ref = {(s_["prog"], s_["version"]): s_ for s_ in fresh["steps"]}
+    for s_ in fresh["steps"]:
+        ck.count(("session", "fresh", s_["prog"], s_["version"]), nontrivial=(s_["outcome"] == "teal"))
+        if s_["outcome"] in ("crash", "timeout"):
+            ck.violation("history session (fresh interpreter): %s at version %d: %s" % (s_["prog"], s_["version"], step_class(s_)),
+                         {"kind": "crash", "session": fresh["job"], "step": s_})
+    reported = 0
+    for r in sess:
+        if r is fresh:
+            continue
+        npre = len(r["steps"]) - len(fresh["steps"])
+        for s_ in r["steps"][:npre]:
+            kk = "%s@v%d:%s" % (s_["prog"], s_["version"], step_class(s_))
+            stats["prelude_outcomes"][kk] = stats["prelude_outcomes"].get(kk, 0) + 1
+            if s_["outcome"] in ("crash", "timeout"):
+                ck.violation("history session %s: prelude program %s at version %d: %s (not a PyTeal error)" % (r["job"]["tag"], s_["prog"], s_["version"], step_class(s_)),
+                             {"kind": "crash", "session": r["job"], "step": s_})
+        diffs = []
+        for s_ in r["steps"][npre:]:
+            ck.count(("session", r["job"]["tag"], s_["prog"], s_["version"]), nontrivial=(s_["outcome"] == "teal"))
+            f = ref[(s_["prog"], s_["version"])]
+            if step_class(s_) != step_class(f):
+                diffs.append((s_, f))
+            elif s_["outcome"] == "teal" and s_.get("sha") != f.get("sha"):
+                stats["text_differences"] += 1
+        stats["class_differences"] += len(diffs)
+        if diffs and reported < 3:
+            reported += 1
+            s_, f = min(diffs, key=lambda d: (d[1]["outcome"] != "teal", d[0]["version"]))
+            ck.violation("after compiling %s in the same interpreter, %s at version %d ends in %s; in a fresh interpreter it ends in %s (%d programs of the "
+                         "acceptance slice change their outcome class)" % (r["job"]["tag"][6:], s_["prog"], s_["version"], step_class(s_), step_class(f), len(diffs)),
+                         {"kind": "acceptance" if f["outcome"] == "teal" else "history", "session": r["job"], "fresh_session": fresh["job"],
+                          "step": s_, "fresh_step": f, "all_differences": [(a["prog"], a["version"], step_class(a), step_class(b_)) for a, b_ in diffs][:40]})
+
+
 def replay(path):
     import pyteal as pt
     data = json.load(open(path))
@@ -588,6 +972,23 @@ def replay(path):
         print(json.dumps(res, indent=1)[:3000])
         r = res[0] if res else {"outcome": "worker-died"}
         bad = r.get("outcome") in ("crash", "worker-died", "timeout") or (data.get("kind") == "acceptance" and r.get("outcome") == "pyteal")
+        print("still failing" if bad else "no longer failing")
+        return 1 if bad else 0
+    if "session" in data:
+        jobs = [[data["session"]]] + ([[data["fresh_session"]]] if "fresh_session" in data else [])
+        res = run_worker_jobs(jobs, wall=300)
+        by = {r["job"].get("tag"): r for r in res if r.get("outcome") == "session"}
+        a = by.get(data["session"].get("tag"))
+        st_ = data["step"]
+        now = next((x for x in (a or {}).get("steps", [])[::-1] if x["prog"] == st_["prog"] and x["version"] == st_["version"]), None)
+        print("step now:", json.dumps(now)[:600])
+        if "fresh_session" in data:
+            f = by.get("fresh")
+            fnow = next((x for x in (f or {}).get("steps", []) if x["prog"] == st_["prog"] and x["version"] == st_["version"]), None)
+            print("fresh   :", json.dumps(fnow)[:600])
+            bad = now is None or fnow is None or step_class(now) != step_class(fnow)
+        else:
+            bad = now is None or now["outcome"] in ("crash", "timeout")
         print("still failing" if bad else "no longer failing")
         return 1 if bad else 0
     if "router" in data:
@@ -616,6 +1017,11 @@ def replay(path):
 
 
 def main(argv):
+    if "--shard" in argv:
+        i = argv.index("--shard")
+        k, n = int(argv[i + 1]), int(argv[i + 2])
+        rest = argv[:i] + argv[i + 3:]
+        return shard_main(k, n, parse_args(rest).tier)
     args = parse_args(argv)
     if args.replay:
         return replay(args.replay)
@@ -627,31 +1033,40 @@ def main(argv):
         ck.violation("translator aborted: PyTeal's tables no longer have the expected shape", {"broken": "harness/translate.py", "log": out[-2000:]}, no_failing_input=True)
         return ck.finish(level="proof", rule="translator failed")
 
-    # ---- (1) proofs
-    ck.run_proofs("Props/C20.v", PROOF_FILES, extra_targets=["Extract/Main_c20.vo"])
-    tree_ok = True
-    if os.path.exists(os.path.join(COQ, TREE_PROPS)):
-        deps = tree_prop_deps()
-        ok1, log1 = coq_make(deps, tag="C20")
-        okp, thms, assum, plog = coq_props(TREE_PROPS) if ok1 else (False, [], "", log1)
-        stated, closed, _ = count_obligations([TREE_PROPS] + [d[:-1] for d in deps if d.startswith("Proofs/")])
-        ck.coverage["obligations"] += stated
-        ck.coverage["discharged"] += closed if (okp and ck.proof_ok) else 0
-        ck.coverage["property_theorems"] = ck.coverage.get("property_theorems", []) + thms
-        ck.coverage["print_assumptions_tree"] = assum.splitlines()[-30:]
-        ax = [l for l in assum.splitlines() if l.strip() and "Closed under the global context" not in l and not l.startswith("File ") and "Warning" not in l]
-        ck.coverage["axioms_reported"] = ck.coverage.get("axioms_reported", []) + ax
-        tree_ok = bool(okp and stated == closed)
-        if not tree_ok:
-            ck.coverage["proof_failure_log_tree"] = (plog or log1)[-2000:]
-            ck.coverage["discharged"] = 0
-    else:
-        ck.notes.append("Props/C20_tree.v (tree-validity theorems of addIncoming/validateTree/NormalizeBlocks) not present in this tree")
-    proofs_ok = ck.proof_ok and tree_ok
-
-    # the long / deep / slow families run in worker interpreters beside the correspondence below
     import threading
-    worker_groups = family_jobs(thorough)
+    # ---- (1) proofs: built in a side thread (coqc subprocesses) while the correspondence runs
+    proof_state = {}
+
+    def proofs():
+        t0 = time.time()
+        ck.run_proofs("Props/C20.v", PROOF_FILES, extra_targets=["Extract/Main_c20.vo"])
+        tree_ok = True
+        if os.path.exists(os.path.join(COQ, TREE_PROPS)):
+            deps = tree_prop_deps()
+            ok1, log1 = coq_make(deps, tag="C20")
+            okp, thms, assum, plog = coq_props(TREE_PROPS) if ok1 else (False, [], "", log1)
+            stated, closed, _ = count_obligations([TREE_PROPS] + [d[:-1] for d in deps if d.startswith("Proofs/")])
+            ck.coverage["obligations"] += stated
+            ck.coverage["discharged"] += closed if (okp and ck.proof_ok) else 0
+            ck.coverage["property_theorems"] = ck.coverage.get("property_theorems", []) + thms
+            ck.coverage["print_assumptions_tree"] = assum.splitlines()[-30:]
+            ax = [l for l in assum.splitlines() if l.strip() and "Closed under the global context" not in l and not l.startswith("File ") and "Warning" not in l]
+            ck.coverage["axioms_reported"] = ck.coverage.get("axioms_reported", []) + ax
+            tree_ok = bool(okp and stated == closed)
+            if not tree_ok:
+                ck.coverage["proof_failure_log_tree"] = (plog or log1)[-2000:]
+                ck.coverage["discharged"] = 0
+        else:
+            ck.notes.append("Props/C20_tree.v (tree-validity theorems of addIncoming/validateTree/NormalizeBlocks) not present in this tree")
+        proof_state["tree_ok"] = tree_ok
+        ck.coverage["proofs_total_s"] = round(time.time() - t0, 1)
+    pth = threading.Thread(daemon=True, target=proofs)
+    pth.start()
+    if not pv_is_current("c20"):
+        pth.join()              # the extracted model has to be rebuilt from freshly compiled sources first
+
+    # the long / deep / slow families and the compile-history sessions run in worker interpreters beside everything else
+    worker_groups = family_jobs(thorough) + session_jobs()
     worker_out = {}
     wt = threading.Thread(daemon=True, target=lambda: worker_out.setdefault("r", run_worker_jobs(worker_groups, wall=(1000 if thorough else 170))))
     wt.start()
@@ -659,84 +1074,13 @@ def main(argv):
     model = Model("c20")
     run = Run(ck, pt, model)
     rng = ck.rng
-    versions = list(range(2, 11))
 
-    # ---- (2a) corpus of earlier minimised failures (now repaired in /repo): must compile, model must agree
-    t0 = time.time()
-    c0 = time.process_time()
-    for r in (W_LOOP_FIRST, W_LOOP_CONTINUE, W_IF_EMPTY_THEN_LOOP, W_OPT):
-        for v in versions:
-            for ssv in (None, True):
-                run.consider(run_case(pt, model, C20Case(r, v, True, ssv, None), measure=True), "corpus")
-    # ---- (2b) exhaustive small shapes x versions x modes x options
-    shapes = small_recipes() + c20_shapes()
-    seen = set()
-    shapes = [s for s in shapes if not (repr(s) in seen or seen.add(repr(s)))]
+    # ---- (2a-d) corpus, small shapes, control-flow programs, random programs, subroutine programs: sharded over processes
+    ts = time.time()
+    nshards = int(os.environ.get("C20_SHARDS", "12" if thorough else "8"))
+    shard_procs = start_shards(nshards, args.tier)
+    shapes = all_shapes()
     ck.coverage["small_shapes"] = len(shapes)
-    optmatrix = [(None, None), (True, None), (False, None), (None, False), (True, True), (False, False), (None, True), (True, False)]
-    for si, r in enumerate(shapes):
-        if thorough:
-            configs = [(v, app, ssv, fpv) for v in versions for app in (True, False) for (ssv, fpv) in optmatrix]
-        else:
-            # every shape at four versions (application mode, default options), one signature-mode version and
-            # two rotating version/option settings
-            configs = [(v, True, None, None) for v in (2, 6, 9, 10)] + [((3, 8)[si % 2], False, None, None)]
-            configs += [((4, 5, 7, 8, 9, 10)[(si + k) % 6], True) + optmatrix[1 + (si + 3 * k) % 7] for k in range(2)]
-        for v, app, ssv, fpv in configs:
-            run.consider(run_case(pt, model, C20Case(r, v, app, ssv, fpv), measure=(ssv is None and fpv is None)), "small")
-    ck.coverage["small_cases_s"] = round(time.time() - t0, 1)
-    ck.coverage["small_cases_cpu_s"] = round(time.process_time() - c0, 1)
-
-    # ---- (2c) seeded random programs
-    t0 = time.time()
-    n = 6000 if thorough else 700
-    for i in range(n):
-        version, app, ssv, fpv = random_case_params(rng)
-        g = Gen(rng, version, app, size=rng.choice([5, 10, 20, 40, 60, 90]), allow_new_ops=0.03)
-        r = g.program(depth=rng.choice([1, 2, 3, 4, 5]))
-        init = tuple(st(k, (I(0) if t == "u" else B(b""))) for k, t in g.vars.items())
-        if init and rng.random() < 0.9:
-            r = ("seq",) + init + (r,)
-        for k, vv in g.hist.items():
-            run.hist[k] = run.hist.get(k, 0) + vv
-        c = run_case(pt, model, C20Case(r, version, app, ssv, fpv), measure=(i % 4 == 0))
-        run.consider(c, "random")
-        if c.realx is not None and c.realx["outcome"] == "ok":
-            ck.sample({"recipe": repr(r)[:300], "version": version, "mode": "app" if app else "sig", "teal_lines": len(c.realx["value"].split("\n"))}, limit=3)
-        # the same program, made ill-typed / malformed at one position: must be refused with a PyTeal error
-        if i % 3 == 0:
-            kind, bad = mutate_ill_typed(rng, r)
-            cb = run_case(pt, model, C20Case(bad, version, app, ssv, fpv))
-            run.consider(cb, "ill-typed:" + kind, well_formed=False)
-            refused = cb.build["outcome"] == "pyteal" or (cb.realx is not None and cb.realx["outcome"] == "pyteal")
-            run.note("ill-typed refused with a PyTeal error" if refused else "ill-typed:" + kind + ":" + (cb.build["outcome"] if cb.realx is None else real_class(cb)))
-    ck.coverage["random_s"] = round(time.time() - t0, 1)
-
-    # ---- (2d) programs with subroutines (recursion, by-reference parameters, odd names)
-    t0 = time.time()
-    n = 1500 if thorough else 160
-    for i in range(n):
-        version = rng.choice([4, 5, 6, 7, 8, 8, 9, 10])
-        app = rng.random() < 0.8
-        ssv = rng.choice([None, None, True, False])
-        fpv = rng.choice([None, None, False, True]) if version >= 8 else rng.choice([None, False])
-        try:
-            prepare, main_r, desc = gen_sub_program(rng, version, app)
-        except Exception as e:  # generator limitation, not the implementation
-            run.note("subgen-skip")
-            continue
-        b0 = Builder(pt)
-        rb = call_real(prepare, b0)
-        if rb[0] != "ok":
-            run.note("sub-definition:" + rb[1])
-            if rb[1] not in PYTEAL_ERROR_NAMES:
-                c = C20Case(main_r, version, app, ssv, fpv)
-                c.build = {"outcome": "crash", "exc": rb[1], "msg": rb[2]}
-                run.crashes.append((c, "sub-definition", "subs"))
-            continue
-        subs = [(k, s["name"], s["ret"], s["kinds"], s["body"]) for k, s in b0.subs.items()]
-        run.consider(run_case(pt, model, C20Case(main_r, version, app, ssv, fpv, subs)), "subs")
-    ck.coverage["subroutine_s"] = round(time.time() - t0, 1)
 
     # ---- (2e) other entry points: Compilation.compile, assembleConstants, type_track, Router
     t0 = time.time()
@@ -749,6 +1093,12 @@ def main(argv):
     cx = complexity_probes(pt)
     ck.coverage["complexity_probes"] = cx
     ck.coverage["probes_s"] = round(time.time() - t0, 1)
+
+    # ---- merge the shards; every case a shard flagged is re-run and judged here
+    tm = time.time()
+    merge_shards(run, shard_procs, nshards, thorough)
+    ck.coverage["streams_wall_s"] = round(time.time() - ts, 1)
+    ck.coverage["waited_for_shards_s"] = round(time.time() - tm, 1)
 
     # ---- (3) worker families + diagnosis of in-process RecursionErrors
     t0 = time.time()
@@ -774,8 +1124,12 @@ def main(argv):
     ck.coverage["families"] = fam
     ck.coverage["families_summary_s"] = round(time.time() - t0, 1)
 
+    summarize_sessions(ck, wres)
+
     # ---- (4) known findings replayed against the real code
     replay_known(ck, run, pt, wres, cx)
+    pth.join()
+    proofs_ok = bool(getattr(ck, "proof_ok", False)) and proof_state.get("tree_ok", False)
 
     # ---- (5) verdict
     viol = 0
@@ -823,7 +1177,7 @@ def main(argv):
                      {"kind": "correspondence", "broken": "addIncoming recursion depth vs Comp.Passes.add_incoming", "case": c.describe()}, no_failing_input=True)
         viol += 1
     if not proofs_ok and viol == 0:
-        ck.violation("proof obligation broken: Props/C20.v%s no longer checks" % ("" if tree_ok else " / Props/C20_tree.v"),
+        ck.violation("proof obligation broken: Props/C20.v%s no longer checks" % ("" if proof_state.get("tree_ok", False) else " / Props/C20_tree.v"),
                      {"kind": "proof", "broken": "Props/C20.v" if not ck.proof_ok else TREE_PROPS,
                       "log": (getattr(ck, "proof_log", "") or "")[-1500:]}, no_failing_input=True)
     ck.coverage["harness_process_cpu_s"] = round(time.process_time(), 1)
@@ -840,7 +1194,9 @@ def main(argv):
         rule="recipes (terms of coq/Src/Expr.v) built through PyTeal's public constructors: earlier failures first, then exhaustive small control-flow shapes "
              "(progcorpus.small_recipes + c20_shapes: loop first, body only Break/Continue, empty sequences, nested loops/conditionals, one-armed Cond/If, "
              "empty For parts, Assert forms, Return in the middle, MaybeValue, store/load in loop conditions) x versions 2..10 x both modes x OptimizeOptions matrix, "
-             "seeded random programs (5..90 nodes) and an ill-typed mutation of every third, generated subroutine programs, API variants (Compilation.compile, "
+             "seeded nested control-flow programs (Break/Continue in If arms inside loops, sequences of loops), seeded random programs (5..90 nodes) and an "
+             "ill-typed mutation of every third, generated subroutine programs, compile-history sessions (a refused program first, then an acceptance slice "
+             "incl. ABI values in main at versions 2..10, compared with a fresh interpreter), API variants (Compilation.compile, "
              "assembleConstants, assembly_type_track, Router.compile_program), and size families (50..1000 statements, nesting 50..1000, 1..300 variables, "
              "1..200 subroutines) in worker interpreters at the default recursion limit; each real outcome is classified TEAL | PyTeal error | crash and "
              "compared with the Coq model's outcome class; distinct = (recipe, subroutines, version, mode, options); non-trivial = compiles to TEAL",
